@@ -3,7 +3,7 @@
 import glob, json, os
 V = os.path.dirname(os.path.dirname(os.path.abspath(__file__)))
 rows = []
-n = {r: [0, 0] for r in range(1, 9)}
+n = {r: [0, 0] for r in range(1, 10)}
 for f in sorted(glob.glob(os.path.join(V, "seeded", "*", "meta.json"))):
     m = json.load(open(f))
     r = m.get("round", 1)
@@ -23,5 +23,5 @@ print("| id | round | property | needs, in order to manifest | outcome |")
 print("|----|-------|----------|-----------------------------|---------|")
 print("\n".join(rows))
 print()
-print("round 1: %d seeded, %d caught by the quick tier as it was then; round 2: %d seeded, %d caught at once; round 3: %d seeded, %d caught at once; round 4: %d seeded, %d caught at once; round 5: %d seeded, %d caught at once; round 6: %d seeded, %d caught at once; round 7: %d seeded, %d caught at once; round 8: %d seeded, %d caught at once"
-      % (n[1][0], n[1][1], n[2][0], n[2][1], n[3][0], n[3][1], n[4][0], n[4][1], n[5][0], n[5][1], n[6][0], n[6][1], n[7][0], n[7][1], n[8][0], n[8][1]))
+print("round 1: %d seeded, %d caught by the quick tier as it was then; round 2: %d seeded, %d caught at once; round 3: %d seeded, %d caught at once; round 4: %d seeded, %d caught at once; round 5: %d seeded, %d caught at once; round 6: %d seeded, %d caught at once; round 7: %d seeded, %d caught at once; round 8: %d seeded, %d caught at once; round 9: %d seeded, %d caught at once"
+      % (n[1][0], n[1][1], n[2][0], n[2][1], n[3][0], n[3][1], n[4][0], n[4][1], n[5][0], n[5][1], n[6][0], n[6][1], n[7][0], n[7][1], n[8][0], n[8][1], n[9][0], n[9][1]))
